@@ -197,8 +197,10 @@ def run(ctx):
             if i < 3:
                 ctx.sample({"hostile_text": text[:60]})
         for obj in _hostile_objects():
-            for cls, name in ((GroupAddress, "GA"), (IndividualAddress, "IA"), (InternalGroupAddress, "IGA")):
-                _judge_text(ctx, cls, obj, name)
+            for fmt in (GroupAddressType.LONG, GroupAddressType.SHORT, GroupAddressType.FREE):
+                GroupAddress.address_format = fmt
+                for cls, name in ((GroupAddress, "GA"), (IndividualAddress, "IA"), (InternalGroupAddress, "IGA")):
+                    _judge_text(ctx, cls, obj, name)
         # wire form: from_knx of any octet string is either an address that round-trips or an address parse error
         for n in (0, 1, 3, 4, 8, 255, 1785, 1786, 1787, 1800, 4000, 9000):
             for fill in (b"\x00", b"\xff", b"\x01"):
